@@ -19,6 +19,18 @@ pub fn child(kv: &std::collections::BTreeMap<String, String>) -> ! {
     let threads: usize = kv.get("threads").and_then(|x| x.parse().ok()).unwrap_or(16);
     let calls: usize = kv.get("calls").and_then(|x| x.parse().ok()).unwrap_or(4);
     let part = kv.get("part").cloned().unwrap_or_else(|| "fresh".to_string());
+    if kv.get("mode").map(|m| m == "tmpdir").unwrap_or(false) {
+        // The temporary directory changes and changes back while the process lives (TMPDIR is read on every call).
+        let base = kv.get("base").cloned().unwrap_or_else(|| "/tmp".to_string());
+        let dirs = [format!("{}/vmon-c20-a", base), format!("{}/vmon-c20-b", base), format!("{}/vmon-c20-a", base), base.clone(), format!("{}/vmon-c20-b", base), format!("{}/vmon-c20-a", base)];
+        for d in dirs.iter() {
+            let _ = std::fs::create_dir_all(d);
+            std::env::set_var("TMPDIR", d);
+            let handles: Vec<_> = (0..4).map(|_| { let part = part.clone(); std::thread::spawn(move || (0..calls).map(|_| serialize::temp_file_name(&part).to_string_lossy().to_string()).collect::<Vec<String>>()) }).collect();
+            for h in handles { for n in h.join().unwrap() { println!("NAME {}", n); } }
+        }
+        std::process::exit(0);
+    }
     let go = Arc::new(std::sync::atomic::AtomicBool::new(false));
     let ready = Arc::new(std::sync::atomic::AtomicUsize::new(0));
     let mut handles = Vec::new();
@@ -162,7 +174,36 @@ fn stale_files(ctx: &mut Ctx) {
     }
 }
 
+// A process whose temporary directory changes and changes back (TMPDIR): names handed out during the first visit
+// must not come back during the second.
+fn tmpdir_round_trip(ctx: &mut Ctx) {
+    if cfg!(miri) { return; }
+    let exe = match std::env::current_exe() { Ok(e) => e, Err(e) => { ctx.inconclusive(format!("current_exe: {}", e)); return; } };
+    for k in 0..ctx.size(3, 12) {
+        if !ctx.begin_case() { continue; }
+        let part = NAME_PARTS[k % NAME_PARTS.len()];
+        let out = std::process::Command::new(&exe).args(["c20child", "mode=tmpdir", "calls=25", &format!("part={}", part), &format!("base={}", ctx.tmpdir)]).output();
+        ctx.checks += 1;
+        match out {
+            Err(e) => { ctx.inconclusive(format!("could not spawn a process: {}", e)); return; },
+            Ok(o) => {
+                let text = String::from_utf8_lossy(&o.stdout).to_string();
+                let names: Vec<&str> = text.lines().filter_map(|l| l.strip_prefix("NAME ")).collect();
+                if names.len() != 600 { ctx.inconclusive(format!("tmpdir child returned {} names (status {:?})", names.len(), o.status.code())); continue; }
+                let mut seen: HashSet<String> = HashSet::new();
+                for nm in names.iter() {
+                    if !seen.insert(normal(nm)) { ctx.violation("temp_file_name.duplicate.tmpdir", format!("path {} was returned twice in a process whose TMPDIR went a -> b -> a -> base -> b -> a (name part {:?})", nm, part)); break; }
+                }
+                ctx.case(hash64(&[0xF8, k as u64, seen.len() as u64]), true);
+            },
+        }
+    }
+    let _ = std::fs::remove_dir(format!("{}/vmon-c20-a", ctx.tmpdir));
+    let _ = std::fs::remove_dir(format!("{}/vmon-c20-b", ctx.tmpdir));
+}
+
 pub fn run(ctx: &mut Ctx) {
+    tmpdir_round_trip(ctx);
     fresh_processes(ctx);
     spellings(ctx);
     stale_files(ctx);
